@@ -435,6 +435,19 @@ static Verdict run(const Case& c)
    }
    if(!regular) return v;
 
+   // every second operation hands in a result vector that still holds entries of an earlier use (callers reuse result vectors,
+   // e.g. one vector for all rows of the inverse): the solves must overwrite, not accumulate
+   auto dirtyS = [&](XS & x, int t)
+   {
+      if(t % 2 == 0) return;
+      for(int k = 0; k < 3 && k < n; k++) x.setValue((t + 2 * k) % n, soplex::Rational(7 + k));
+      e.count("result_vector_dirty");
+   };
+   auto dirtyD = [&](DV & x, int t)
+   {
+      if(t % 2 == 0) return;
+      for(int k = 0; k < 3 && k < n; k++) x[(t + 2 * k) % n] = soplex::Rational(7 + k);
+   };
    for(int t = 0; t < nops && v.ok; t++)
    {
       int var = (int) ops[t]->i(0);
@@ -447,12 +460,14 @@ static Verdict run(const Case& c)
       {
          DV x(n), rhs(n);
          toDV(b[0], rhs);
+         dirtyD(x, t);
          lu.solveRight(x, rhs);
          m = cmp(x, BR, 3 * t, n);
       }
       else if(var == S_R_SSV)
       {
          XS x(n);
+         dirtyS(x, t);
          lu.solveRight(x, s1);
          m = ssvConsistent(x, n);
          if(m.empty()) m = cmp(x, BR, 3 * t, n);
@@ -461,12 +476,14 @@ static Verdict run(const Case& c)
       {
          DV x(n), rhs(n);
          toDV(b[0], rhs);
+         dirtyD(x, t);
          lu.solveLeft(x, rhs);
          m = cmp(x, BL, 3 * t, n);
       }
       else if(var == S_L_SSV)
       {
          XS x(n);
+         dirtyS(x, t);
          lu.solveLeft(x, s1);
          e.count(x.isSetup() ? "ssv.setup" : "ssv.not_setup");
          m = ssvConsistent(x, n);
@@ -478,6 +495,9 @@ static Verdict run(const Case& c)
          DV y(n), z(n);
          toSSV(b[1], r2);
          toSSV(b[2], r3);
+         dirtyS(x, t);
+         dirtyD(y, t);
+         dirtyD(z, t);
          if(var == S_L2) lu.solveLeft(x, y, s1, r2);
          else lu.solveLeft(x, y, z, s1, r2, r3);
          m = ssvConsistent(x, n);
